@@ -131,3 +131,7 @@ package appdb
 //@   ensures [real] first: !cached ==> reward.val <= safeReward.val
 //@   ensures [real] bounded: cached && old(pc) >= 0 ==> 0 <= reward.val && reward.val <= safeReward.val
 //@   ensures stored: appDB.price != nil && appDB.isDirtyPrice && appDB.price.R0.val == old(r0.val) && appDB.price.R1.val == old(r1.val)
+
+//@ func (*AppDB).GetValidators
+//@   trusted
+//@   modifies nothing
